@@ -185,6 +185,23 @@ def forced_interleavings():
     return out
 
 
+def trivial_materializations():
+    """materialized() — no explicit name — of relations that are statically empty or a join identity (but not leaves):
+    every call hands out a fresh name."""
+    out = []
+    for eng in (iteration.Engine(name="tm_it"), sql.Engine(name="tm_sql")):
+        payload = iteration.RowSequence([{K(1): 1}]) if isinstance(eng, iteration.Engine) else object()
+        leaf = dr.LeafRelation(eng, frozenset({K(1)}), payload, name="tmleaf", min_rows=1, max_rows=1)
+        for pref in ("m", "materialization"):
+            for rel in (leaf[0:0], leaf[1:1], leaf.with_only_columns(set()), leaf[0:0], leaf.with_only_columns(set())):
+                m = rel.materialized(name_prefix=pref)
+                while not isinstance(m, dr.Materialization) and hasattr(m, "target"):
+                    m = m.target
+                if isinstance(m, dr.Materialization):
+                    out.append((pref, m.name))
+    return out
+
+
 def engine_turnover():
     """Engines created and dropped one after another (one per query is the common pattern): the names handed out by all
     of them, kept by the caller, must still be pairwise distinct."""
@@ -227,7 +244,8 @@ def run(ctx):
                                        "bad_prefix": [(p, nm) for p, nm in names if not nm.startswith(p + "_")][:4]}, None)
     forced = []
     try:
-        forced = forced_interleavings() + [("engines created and dropped one after another", engine_turnover())]
+        forced = forced_interleavings() + [("engines created and dropped one after another", engine_turnover()),
+                                           ("materializations of statically empty / join-identity relations", trivial_materializations())]
     except Exception as e:  # noqa: BLE001 — the probe no longer fits the code: reported through the correspondence
         s1["ok"] = False
         s1["broken"].append({"kind": "model-implementation-correspondence-broken",
